@@ -61,6 +61,7 @@ type E7Spec struct {
 	StaleElement  []FuncRuleSpec     `json:"stale_element"`
 	DroppedError  []DroppedErrorSpec `json:"dropped_error"`
 	SaveRestore   []FuncRuleSpec     `json:"save_restore"`
+	SizeGate      []FuncRuleSpec     `json:"size_gate"`
 }
 
 type FuncRuleSpec struct {
@@ -228,6 +229,9 @@ func runE7(p *Program, sp *Spec, c *Collector) {
 	}
 	for _, sr := range t.SaveRestore {
 		runSaveRestore(p, c, sr)
+	}
+	for _, sg := range t.SizeGate {
+		runSizeGate(p, c, sg)
 	}
 	for _, n := range t.NoExit {
 		runNoExit(p, sp, c, n)
@@ -1149,8 +1153,11 @@ func runDedupe(p *Program, c *Collector, d FuncRuleSpec) {
 				}
 				// a set insertion: constant value, map made in this function, in a loop, and the same map is looked up with
 				// the same key to skip the iteration
+				// (the value of the entry is a constant, or a position that says where the first record with the key was put)
 				if _, isC := mu.Value.(*ssa.Const); !isC {
-					continue
+					if b, ok := mu.Value.Type().Underlying().(*types.Basic); !ok || b.Info()&types.IsInteger == 0 {
+						continue
+					}
 				}
 				if _, isLocal := mu.Map.(*ssa.MakeMap); !isLocal {
 					continue
@@ -1773,6 +1780,20 @@ func runImmutable(p *Program, c *Collector, im ImmutableSpec) {
 				if mu, ok := in.(*ssa.MapUpdate); ok && valueFromParam(mu.Map, fn.Params[im.Param], map[ssa.Value]bool{}) {
 					c.Ob(im.Props, "E7.input-immutability", key, Violated, im.What+": the function adds to or replaces entries of its input map ("+fn.Params[im.Param].Name()+"), so whoever reads the same map afterwards sees modified data", p.InstrPos(in), false)
 					return
+				}
+				if call, ok := in.(*ssa.Call); ok && call.Call.StaticCallee() != nil {
+					// a library routine that re-orders or fills its argument in place
+					switch fullFuncName(call.Call.StaticCallee()) {
+					case "sort.Slice", "sort.SliceStable", "sort.Strings", "sort.Ints", "sort.Float64s", "sort.Sort", "sort.Stable":
+						arg := call.Call.Args[0]
+						if mi, ok := arg.(*ssa.MakeInterface); ok {
+							arg = mi.X
+						}
+						if valueFromParam(arg, fn.Params[im.Param], map[ssa.Value]bool{}) {
+							c.Ob(im.Props, "E7.input-immutability", key, Violated, im.What+": the function sorts its input ("+fn.Params[im.Param].Name()+") in place, so whoever reads the same list afterwards sees another order", p.InstrPos(in), false)
+							return
+						}
+					}
 				}
 				st, ok := in.(*ssa.Store)
 				if !ok {
@@ -2853,6 +2874,60 @@ func definedInDeep(v ssa.Value, region map[*ssa.BasicBlock]bool, seen map[ssa.Va
 // capacity shared by all of them, so records overwrite each other's elements.
 func runSharedBacking(p *Program, c *Collector, a FuncRuleSpec) {
 	pkgs := map[*ssa.Package]bool{}
+	// emptied in place: `state.L = state.L[:0]` on package-level state keeps the backing array, and with it the elements of
+	// every list handed out from that state before (a result returned by value still points there): the next unit's appends
+	// overwrite them. `= nil` starts a new array.
+	for _, fn := range expandFuncs(p, c, a.Funcs, a.Props...) {
+		k := 0
+		for _, b := range fn.Blocks {
+			for _, in := range b.Instrs {
+				st, ok := in.(*ssa.Store)
+				if !ok {
+					continue
+				}
+				sl, ok := st.Val.(*ssa.Slice)
+				if !ok || sl.Max != nil {
+					continue
+				}
+				if hi, isC := constInt(sl.High); !isC || hi != 0 {
+					continue
+				}
+				ld, ok := sl.X.(*ssa.UnOp)
+				if !ok || ld.Op != token.MUL {
+					continue
+				}
+				// the same location is read and written, and it is package-level state
+				root := st.Addr
+				for {
+					if fa, ok := root.(*ssa.FieldAddr); ok {
+						root = fa.X
+						continue
+					}
+					break
+				}
+				g, _ := globalOfAddr(root)
+				if g == nil {
+					g = loadedGlobal(root)
+				}
+				if g == nil {
+					continue
+				}
+				same := ld.X == st.Addr
+				if !same {
+					fa1, ok1 := ld.X.(*ssa.FieldAddr)
+					fa2, ok2 := st.Addr.(*ssa.FieldAddr)
+					if ok1 && ok2 && fa1.Field == fa2.Field && loadedGlobal(fa1.X) != nil && loadedGlobal(fa1.X) == loadedGlobal(fa2.X) {
+						same = true
+					}
+				}
+				if !same {
+					continue
+				}
+				k++
+				c.Ob(a.Props, "E7.shared-backing", fmt.Sprintf("emptied-in-place:%s #%d of %s", p.FuncKey(fn), k, g.Name()), Violated, a.What+": "+shortFn(p.FuncKey(fn))+" empties a list of the package-level state "+g.Name()+" with [:0]: the list keeps its backing array, so the elements of every result handed out before are overwritten by what the next unit appends (assign nil to start afresh)", p.InstrPos(in), false)
+			}
+		}
+	}
 	for _, fn := range expandFuncs(p, c, a.Funcs, a.Props...) {
 		q := fn
 		for q.Parent() != nil {
@@ -3895,12 +3970,91 @@ func runNestedModel(p *Program, c *Collector, nm NestedModelSpec) {
 			continue
 		}
 		key := "nestedmodel:" + p.FuncKey(fn)
+		// the function flattens its list (hands it to a helper that visits the nested records and gives a list of the same
+		// type back) but one of its loops still walks the list it was given: that loop leaves the member types out
+		if raw := rawWalkBesideFlattened(p, fn, nm, isField, reads, partner, touches); raw != nil {
+			c.Ob(nm.Props, "E7.nested-model", key, Violated, nm.What+": "+shortFn(p.FuncKey(fn))+" builds the list with the member types ("+nm.Partner+") but the loop at "+p.InstrPos(raw)+" still walks the list it was given: what member types declare is left out there, and the two walks disagree", p.InstrPos(raw), false)
+			continue
+		}
 		if touches(fn, partner, 0, map[*ssa.Function]bool{}) {
 			c.Ob(nm.Props, "E7.nested-model", key, Discharged, shortFn(p.FuncKey(fn))+" also visits "+nm.Partner, p.FuncPos(fn), true)
 		} else {
 			c.Ob(nm.Props, "E7.nested-model", key, Violated, nm.What+": "+shortFn(p.FuncKey(fn))+" walks a list of types and reads their "+strings.Join(nm.Reads, "/")+", but neither it nor a helper it calls ever looks at "+nm.Partner+": what member types declare and call is left out", p.FuncPos(fn), false)
 		}
 	}
+}
+
+func rawWalkBesideFlattened(p *Program, fn *ssa.Function, nm NestedModelSpec, isField func(ssa.Instruction, map[string]bool) bool, reads, partner map[string]bool,
+	touches func(*ssa.Function, map[string]bool, int, map[*ssa.Function]bool) bool) ssa.Instruction {
+	for _, prm := range fn.Params {
+		sl, ok := prm.Type().Underlying().(*types.Slice)
+		if !ok {
+			continue
+		}
+		if pk, n := namedTypeName(sl.Elem()); rel(pk)+"."+n != nm.Type {
+			continue
+		}
+		flattened := false
+		for _, b := range fn.Blocks {
+			for _, in := range b.Instrs {
+				call, ok := in.(*ssa.Call)
+				if !ok || call.Call.StaticCallee() == nil || !p.IsOwnFunc(call.Call.StaticCallee()) || !types.Identical(call.Type(), prm.Type()) {
+					continue
+				}
+				for _, a := range call.Call.Args {
+					if a == ssa.Value(prm) && touches(call.Call.StaticCallee(), partner, 0, map[*ssa.Function]bool{}) {
+						flattened = true
+					}
+				}
+			}
+		}
+		if !flattened || prm.Referrers() == nil {
+			continue
+		}
+		// element accesses on the raw parameter whose element is read for the model fields (directly or in a callee)
+		for _, r := range *prm.Referrers() {
+			ia, ok := r.(*ssa.IndexAddr)
+			if !ok || loopRegion(fn, ia.Block()) == nil || ia.Referrers() == nil {
+				continue
+			}
+			var uses []ssa.Instruction
+			var follow func(v ssa.Value, depth int)
+			follow = func(v ssa.Value, depth int) {
+				if depth > 3 || v.Referrers() == nil {
+					return
+				}
+				for _, u := range *v.Referrers() {
+					uses = append(uses, u)
+					if uv, ok := u.(ssa.Value); ok {
+						switch u.(type) {
+						case *ssa.UnOp, *ssa.FieldAddr, *ssa.Field:
+							follow(uv, depth+1)
+						}
+					}
+					// a copy into a local (range value variable): follow the local
+					if st, ok := u.(*ssa.Store); ok {
+						if al, ok := st.Addr.(*ssa.Alloc); ok && st.Val == v {
+							follow(al, depth+1)
+						}
+					}
+				}
+			}
+			follow(ia, 0)
+			for _, u := range uses {
+				if isField(u, reads) {
+					return ia
+				}
+				if call, ok := u.(ssa.CallInstruction); ok {
+					for _, callee := range p.ownCallees(call) {
+						if touches(callee, reads, 1, map[*ssa.Function]bool{}) {
+							return ia
+						}
+					}
+				}
+			}
+		}
+	}
+	return nil
 }
 
 // ---------------------------------------------------------------------------------------------
